@@ -73,10 +73,18 @@ func wrapGraphNodeError(nodeKey string, err error) error {
 			origError: err,
 		}
 	}
+	if error(ie) != err {
+		// err wraps ie (fmt.Errorf with %w, a typed error with Unwrap): what wraps it belongs to
+		// the node's error as well, so keep err whole under a new wrapper that carries the paths.
+		return &internalError{
+			typ:               ie.typ,
+			streamWrapperPath: append([]defaultImplAction{}, ie.streamWrapperPath...),
+			nodePath:          NodePath{path: append([]string{nodeKey}, ie.nodePath.path...)},
+			origError:         err,
+		}
+	}
 	ie.nodePath.path = append([]string{nodeKey}, ie.nodePath.path...)
-	// return err, not ie: err may wrap ie (fmt.Errorf with %w, a typed error with Unwrap),
-	// and what wraps it belongs to the node's error as well.
-	return err
+	return ie
 }
 
 func newStreamWrapperError(streamWrapperType defaultImplAction, err error) error {
@@ -100,8 +108,16 @@ func wrapStreamWrapperError(streamWrapperType defaultImplAction, err error) erro
 			origError:         err,
 		}
 	}
+	if error(ie) != err { // see wrapGraphNodeError
+		return &internalError{
+			typ:               ie.typ,
+			streamWrapperPath: append([]defaultImplAction{streamWrapperType}, ie.streamWrapperPath...),
+			nodePath:          NodePath{path: append([]string{}, ie.nodePath.path...)},
+			origError:         err,
+		}
+	}
 	ie.streamWrapperPath = append([]defaultImplAction{streamWrapperType}, ie.streamWrapperPath...)
-	return err // see wrapGraphNodeError
+	return ie
 }
 
 type internalErrorType string
